@@ -73,6 +73,17 @@ var c04Skeletons = []skeleton{
 }
 
 func init() {
+	// the hole after / between k other literals or quoted names with escapes (scratch buffers, per-source caches)
+	for _, k := range []int{3, 8, 9, 16, 17, 33, 65} {
+		lits := cycle([]string{`'p\tq#'`, `"u\"v"`, "'x#'", `'\\'`, `"it's"`}, k, ", ")
+		names := cycle([]string{"`n #`", "`q\"#`", "c#", "`b\\#`"}, k, ", ")
+		c04Skeletons = append(c04Skeletons,
+			skeleton{name: fmt.Sprintf("after-%d-literals", k), kind: "string", pre: "T | where s in (" + lits + ", ", post: ", 'z') | project s"},
+			skeleton{name: fmt.Sprintf("before-%d-literals", k), kind: "string", pre: "T | where strcat(", post: ", " + lits + ") == s"},
+			skeleton{name: fmt.Sprintf("after-%d-names", k), kind: "ident", pre: "T | project " + names + ", ", post: " = a"},
+			skeleton{name: fmt.Sprintf("value-after-%d-names", k), kind: "string", pre: "T | project " + names + ", v = ", post: " | count"},
+		)
+	}
 	// the qualified-part skeleton needs a closed expression
 	for i := range c04Skeletons {
 		if c04Skeletons[i].name == "qualified-part" {
